@@ -26,7 +26,8 @@ CLAIM = dict(
          "on a real aiohttp server and a real websockets connection.",
     note="trusted: Lean kernel (axioms propext/Classical.choice/Quot.sound), correspondence harness, CPython json, "
          "aiohttp routing and form/query decoding, websockets framing, asyncio; handlers are functions of their "
-         "parameter dictionary; one request at a time; a bare `null` websocket frame is a known finding",
+         "parameter dictionary; overlapping requests are served one handler at a time (any serial order); a bare `null` "
+         "websocket frame is a known finding",
     technique="Lean 4 refinement + invariant proofs over a hand-written model, differential correspondence against "
               "the real server/client over loopback TCP, property oracle on the real code",
     design="7/C20")
@@ -39,6 +40,7 @@ THEOREMS = [
     "Klong.C20.unknown_path_no_handler",
     "Klong.C20.unknown_key_no_handler",
     "Klong.C20.after_shutdown_no_answer",
+    "Klong.C20.burst_independent",
     "Klong.C20.late_capture_breaks",
     "Klong.C20.Ws.ws_exactly_once_in_order_partial",
     "Klong.C20.Ws.ws_at_most_once_in_order",
@@ -49,6 +51,7 @@ THEOREMS = [
     "Klong.C20.json_roundtrip",
     "Klong.C20.ws_delivers_rendered",
 ]
+SLOW = 0.2          # seconds a handler takes while a burst of overlapping requests is in flight
 WAIT = 20.0         # seconds a single network step may take before it counts as "no answer / lost"
 #                     (only ever waited out when something IS lost; never an oracle by itself)
 
@@ -142,6 +145,7 @@ class Real:
         self.ioloop = self.loops[0]
         self.weblog = []
         self.wslog = []
+        self.slow_on = False
         self.next_id = 1          # corpus cases use ids >= 900000
         k = self.klong
 
@@ -152,12 +156,20 @@ class Real:
         def boom(x):
             raise ValueError("handler failure requested by the scenario")
 
+        def slow(x):
+            # during a burst of overlapping requests every handler takes a little while, so that the
+            # requests really are in flight together; otherwise a no-op
+            if self.slow_on:
+                time.sleep(SLOW)
+            return 0
+
         def wsrec(x, y, z):
             self.wslog.append((int(x), y, z))
             return 0
 
         k["rec"] = rec
         k["boom"] = boom
+        k["slow"] = slow
         k["wsrec"] = wsrec
         k["pyh"] = lambda x: "python handler"
         k('.py("klongpy.web")')
@@ -216,7 +228,9 @@ def fn_source(d):
         res = "boom(0)"
     if d["arity"] == 2:
         return "{rec(%d;x);y;%s}" % (i, res)
-    return "{rec(%d;x);%s}" % (i, res)
+    if i % 2:
+        return "{slow(0);rec(%d;x);%s}" % (i, res)      # parameters logged and used after the pause
+    return "{rec(%d;x);slow(0);%s}" % (i, res)          # logged before, used after
 
 
 def body_text(body, params):
@@ -251,7 +265,7 @@ def gen_params(rng):
     return {k: rng.choice(VALS) for k in ks}
 
 
-def gen_web_scenario(rng, real, length):
+def gen_web_scenario(rng, real, length, burst_p=0.12):
     """a route table of <=3 GET and <=3 POST routes over five global handler symbols, inline lambdas,
     a Python callable and a number, and an operation sequence"""
     env = []
@@ -285,6 +299,7 @@ def gen_web_scenario(rng, real, length):
     ops = []
     allp = {("get", p) for p, _ in gets} | {("post", p) for p, _ in posts}
     closed = False
+    bursts = 0
     close_at = rng.randrange(2, length) if rng.random() < 0.35 else None
     for i in range(length):
         if close_at == i:
@@ -292,6 +307,23 @@ def gen_web_scenario(rng, real, length):
             closed = True
             continue
         r = rng.random()
+        if not closed and allp and rng.random() < burst_p and bursts < 2:
+            bursts += 1
+            reqs = []
+            for j in range(rng.choice([2, 2, 3])):
+                q = rng.random()
+                if q < 0.85:
+                    m, p = rng.choice(sorted(allp))
+                    if reqs and rng.random() < 0.4:
+                        m, p = reqs[0][0], reqs[0][1]          # the same route twice
+                else:
+                    m, p = rng.choice(["get", "post"]), rng.choice(UNKNOWN)
+                ps = gen_params(rng)
+                ps["rid"] = f"r{i}-{j}"
+                ps["k"] = f"{rng.choice(VALS)}#{i}-{j}"
+                reqs.append([m, p, ps])
+            ops.append(["par", reqs])
+            continue
         if r < 0.72 or closed and r < 0.9:
             q = rng.random()
             if q < 0.68 and allp:
@@ -391,6 +423,10 @@ async def _http(session, method, url, params):
             return str(r.status), await r.text()
     except (aiohttp.ClientConnectionError, asyncio.TimeoutError):
         return "none", ""
+
+
+async def _http_many(session, port, reqs):
+    return await asyncio.gather(*[_http(session, m, f"http://127.0.0.1:{port}{p}", params) for m, p, params in reqs])
 
 
 def run_web_scenario(ctx, real, hl, drv, sc):
@@ -493,6 +529,48 @@ def run_web_scenario(ctx, real, hl, drv, sc):
                         model = drv.ask(f"req m={m} path={hx(p)} params={jhx(params)}")
                         if not same_reply(model, impl):
                             ctx.mismatch("Klong.C20.request vs _get/_post", case, show_reply(model), show_reply(impl))
+                            return
+                elif op[0] == "par":
+                    # overlapping requests: each must be served as if it were alone
+                    reqs = op[1]
+                    n0 = len(real.weblog)
+                    real.slow_on = True
+                    try:
+                        answers = hl.call(_http_many(session, port, reqs), WAIT + 5 + 4 * SLOW)
+                    finally:
+                        real.slow_on = False
+                    log = [[i, d] for i, d in real.weblog[n0:]]
+                    exps = [oracle.request(m, p, params) for m, p, params in reqs]
+                    want = [e for exp in exps for e in exp[2]]
+                    for (m, p, params), (status, body), exp in zip(reqs, answers, exps):
+                        one = dict(case, ops=case["ops"][:-1] + [["par", reqs]], request=[m, p, params])
+                        for e in exp[2]:
+                            if log.count(e) != 1:
+                                ctx.oracle_fail("web:concurrent:params", one, e, log,
+                                                "overlapping requests: this request's handler must run exactly once "
+                                                "with exactly this request's parameters")
+                        if status != exp[0]:
+                            ctx.oracle_fail("web:concurrent:status", one, exp[0], status,
+                                            "overlapping requests: HTTP status of this request")
+                        elif exp[1] is not None and body != exp[1]:
+                            ctx.oracle_fail("web:concurrent:body", one, exp[1], body,
+                                            "overlapping requests: the body is the text of this request's own result")
+                    if len(log) != len(want):
+                        ctx.oracle_fail("web:concurrent:not-exactly-once", case, want, log,
+                                        "overlapping requests: one handler invocation per request to a registered route")
+                    ctx.bump(f"web:burst:{len(reqs)}")
+                    ctx.bump("web:burst:same-route" if len({(m, p) for m, p, _ in reqs}) < len(reqs) else "web:burst:different-routes")
+                    if drv:
+                        mlog = []
+                        for (m, p, params), (status, body) in zip(reqs, answers):
+                            model = _reply_obj(drv.ask(f"req m={m} path={hx(p)} params={jhx(params)}"))
+                            mlog += model["log"] or []
+                            if (model["status"], model["body"]) != (status, body if status in ("200", "400") else ""):
+                                ctx.mismatch("Klong.C20.request vs _get/_post (overlapping requests)", case,
+                                             model, dict(status=status, body=body))
+                                return
+                        if sorted(map(json.dumps, mlog)) != sorted(map(json.dumps, log)):
+                            ctx.mismatch("Klong.C20.burst_independent vs call log of overlapping requests", case, mlog, log)
                             return
                 elif op[0] == "def":
                     _, s, v = op
@@ -1053,7 +1131,10 @@ def run(ctx):
                 "codec. distinct = distinct scenarios/values; non-trivial = all but very short codec texts")
     ctx.assumptions += [
         "a handler's result depends only on its parameter dictionary and its current definition (handlers keep no state)",
-        "requests are issued one at a time; each function value is bound to at most one global symbol",
+        "the io loop runs one handler at a time: overlapping requests are modelled as served in some serial order "
+        "(theorem burst_independent: each is answered as if alone); checked on the real server with bursts of 2-3 "
+        "overlapping requests to the same and to different routes whose handlers pause 0.2 s",
+        "each function value is bound to at most one global symbol",
         "parameter names are distinct within a request (a dictionary); route paths are plain ASCII without {patterns}",
         "websocket frames are well-formed JSON texts and .ws.m returns (a raising handler or garbage frame ends the "
         "listen loop: modelled, ws_at_most_once_in_order, not exercised on the real client)",
@@ -1082,7 +1163,8 @@ def run(ctx):
                 ctx.bump("corpus")
             nweb = 40 if quick else 500
             for i in range(nweb):
-                sc = gen_web_scenario(ctx.rng, real, ctx.rng.randrange(5, 12 if quick else 30))
+                sc = gen_web_scenario(ctx.rng, real, ctx.rng.randrange(5, 12 if quick else 30),
+                                      burst_p=0.12 if quick else 0.06)
                 if i < 2:
                     ctx.sample(dict(kind="web", get=sc["get"], post=sc["post"], ops=sc["ops"][:6]))
                 run_web_scenario(ctx, real, hl, drv, sc)
